@@ -204,7 +204,14 @@ class Examiner:
             flags = self.sel_flags(state, gp, fs)
         except Exception:  # noqa
             return
-        real = [any(r.get("method_name") == m for r in res) for m in self.FILTER_METHODS]
+        if any("_goal" in r and len(r["_goal"]) == 0 for r in res):
+            # search_method returns only the solving suggestions when there is one: ask the four searches directly
+            from server import method as method_
+            allm = method_.get_all_methods()
+            real = [len(state.apply_search(ids(gp), allm[m], [ids(f) for f in fs])) > 0 for m in self.FILTER_METHODS]
+            self.ctx.count("search:filter:asked-directly")
+        else:
+            real = [any(r.get("method_name") == m for r in res) for m in self.FILTER_METHODS]
         rec.search_records.append(("search:filter", ["searchfilter"] + flags, real))
         if n % 6 != 0 or n >= 900:
             return
@@ -500,6 +507,19 @@ DIRECTED = [
      "steps": [{"method_name": "cut", "goal_id": "2", "fact_ids": [], "goal": "X"},
                {"method_name": "revert_intro", "goal_id": "3", "fact_ids": ["1"]}],
      "goal_id": "2", "facts": [["0"], [], ["1"], ["0", "1"]]},
+    # a suggestion whose application removes a line (a new gap already stated by an earlier line / a forward
+    # step that closes the goal) in front of a subproof line of the same block: the lines of that
+    # subproof are renumbered at depth 2
+    {"name": "gap-closed-in-front-of-a-subproof-line", "theory": "logic", "vars": {"A": "bool", "B": "bool"},
+     "prop": "A --> (A & B) & (B --> A | B)",
+     "steps": [{"method_name": "apply_backward_step", "goal_id": "1", "fact_ids": [], "theorem": "conjI"},
+               {"method_name": "introduction", "goal_id": "2", "fact_ids": [], "names": ""}],
+     "goal_id": "1", "facts": [[], ["0"]]},
+    {"name": "forward-step-closes-goal-in-front-of-a-subproof-line", "theory": "logic", "vars": {"A": "bool", "B": "bool", "C": "bool"},
+     "prop": "~~A --> A & (C --> B | C)",
+     "steps": [{"method_name": "apply_backward_step", "goal_id": "1", "fact_ids": [], "theorem": "conjI"},
+               {"method_name": "introduction", "goal_id": "2", "fact_ids": [], "names": ""}],
+     "goal_id": "1", "facts": [["0"], []]},
     {"name": "conditional-rewrite-with-and-without-its-condition", "theory": "logic", "vars": {"P": "bool", "a": "'a", "b": "'a"},
      "prop": "P --> (if P then a else b) = a", "steps": [], "goal_id": "1", "facts": [[], ["0"], []]},
 ]
@@ -632,7 +652,8 @@ def replay(ctx, rp):
 
 
 MANIFEST = {
-    "text": "Property oracle on the real code: at reachable states (directed states, every prefix of recorded library proofs, states of "
+    "text": "Property oracle on the real code: at reachable states (directed states - among them gaps whose suggestions remove a line in "
+            "front of a subproof line of the same block -, every prefix of recorded library proofs, states of "
             "perturbed/random edit sequences), for gap and fact selections (<=3 facts; the same goal is searched repeatedly with different "
             "selections in one process), every suggestion of search_method is applied to a copy with the declared parameters supplied "
             "type-directedly: it must succeed or raise ParameterQueryException naming parameters; on success the newly open goals are "
@@ -643,7 +664,7 @@ MANIFEST = {
             "introduction / revert_intro / rewrite_fact / rewrite_fact_with_prev / apply_forward_step against cutM / forwardFact / casesM / "
             "introM / revertIntroM / forwardCloseM; `advertised-vs-export`: the _goal list of a suggestion = the gaps of the export captured "
             "while applying it; `search:filter`: which of introduction / exists_elim / forall_elim / inst_exists_goal search_method "
-            "suggested for a selection, against the model's shape filters; `search:applicable`: whether the first assertions of the real "
+            "suggested for a selection (their own `search` when search_method kept only the solving suggestions), against the model's shape filters; `search:applicable`: whether the first assertions of the real "
             "apply of introduction / exists_elim / inst_exists_goal pass (also on a line that is not a gap), against the model's "
             "applicable*. PROVED (exported lines numbered id, id+1, .. without subproofs - checked on every captured export): "
             "open_goals_subset_advertised, solving_shape_closes_exactly_the_goal, advertised_eq_applied_apply_backward_step / _rewrite_goal "
